@@ -130,6 +130,10 @@ def jobs(tier):
     for sub in (None, 'Verify'):
         js.append({'name': 'cli: options passed to the run for sub-command %s x all flags' % sub, 'harness': ('props.c17', 'h_cli'),
                    'mir': ('lib', 'bin'), 'params': {'sub': sub, 'txtpp_file': None}})
+    for total in (8192, 16384):
+        for tr in (True, False):
+            js.append({'name': 'needed-build: fresh output of exactly %d bytes over a longer older one (trailing=%s)' % (total, tr),
+                       'harness': ('props.fsprops', 'h_exact_size'), 'params': {'total': total, 'mode': 'InMemoryBuild', 'trailing': tr}, 'max_steps': 8_000_000})
     from . import project
     js += project.jobs('C13', tier)
     return js
